@@ -131,8 +131,8 @@ func worker(scenarios []Scenario, sh string, budget time.Duration) {
 			}
 		}
 		share := time.Until(deadline) / time.Duration(left) * 4
-		if share < time.Second {
-			share = time.Second
+		if share < 5*time.Second {
+			share = 5 * time.Second
 		}
 		scDeadline := time.Now().Add(share)
 		if scDeadline.After(deadline) {
